@@ -23,7 +23,6 @@ import (
 
 	"crypto/rand"
 
-	"golang.org/x/telemetry/internal/configstore"
 	"golang.org/x/telemetry/internal/telemetry"
 	"golang.org/x/telemetry/internal/upload"
 	"golang.org/x/telemetry/internal/verifsim/hlib"
@@ -121,7 +120,7 @@ func upExec(c *hlib.RunCtx, t *simrt.Tape) (*hlib.Violation, int) {
 	defer func() { rand.Reader = saveReader }()
 	m.cfgs = append(m.cfgs, mgen.GenConfig(m.t, "v0.1.0"))
 	cfgFails := t.Bool(1, 8)
-	configstore.VerifDownload = func(version string, env []string) (*telemetry.UploadConfig, string, error) {
+	mgen.ServeConfig(s, c.Dir, nil, func(version string, env []string) (*telemetry.UploadConfig, string, error) {
 		simrt.Yield("config:download")
 		if cfgFails {
 			return nil, "", fmt.Errorf("simulated config download failure")
@@ -132,8 +131,7 @@ func upExec(c *hlib.RunCtx, t *simrt.Tape) (*hlib.Violation, int) {
 		var cp telemetry.UploadConfig
 		json.Unmarshal(js, &cp)
 		return &cp, cur.Version, nil
-	}
-	defer func() { configstore.VerifDownload = nil }()
+	})
 
 	// the directory as found
 	dirKind := t.Biased(5, 3, 4) // 0 normal, 1 no telemetry dir, 2 local is a file, 3 upload is a file, 4 debug dir present
